@@ -168,8 +168,57 @@ def run_watchers(spec):
             'summary': {'watchers': n}}
 
 
+def run_neighbours(spec):
+    """Dictionary-valued variables (updater merge or dict_value-like user function) that still hold one shared
+    default object - the children of a glob store, or two ports declared with one schema dictionary and wired to
+    different stores: an update that names one of them changes that node and no other."""
+    from vivarium.core.engine import Engine
+    from vivarium.core.process import Process
+    from vmon.sensors import plain_values
+    V = Viol()
+    upd = spec['updater']
+    common = {'labels': {'_default': {'k': 0}, '_updater': upd, '_emit': True}}
+
+    class Tagger(Process):
+        def ports_schema(self):
+            return {'cells': {'*': {'tags': {'_default': {'t': 0}, '_updater': upd, '_emit': True}, 'n': {'_default': 0}}},
+                    'left': common, 'right': common}
+
+        def next_update(self, timestep, states):
+            return {'cells': {spec['target']: {'tags': {'seen': 1}}}, 'left': {'labels': {'x': 1}}}
+    wiring = {'cells': ('cells',), 'left': ('left',), 'right': (('..', 'other') if spec['dotdot'] else ('right',))}
+    procs, tops = {'tagger': Tagger({'timestep': 1.0})}, {'tagger': wiring}
+    if spec['dotdot']:
+        procs, tops = {'box': procs}, {'box': tops}
+    init = {'cells': {c: {'n': 1} for c in spec['children']}}
+    if spec['dotdot']:
+        init = {'box': init}
+    try:
+        e = Engine(processes=procs, topology=tops, initial_state=init, display_info=False, emitter='null')
+        for _ in range(spec['ticks']):
+            e.update(1.0)
+        st = plain_values(e.state.get_value())
+        box = st['box'] if spec['dotdot'] else st
+        right = st['other'] if spec['dotdot'] else st['right']
+        others = {c: box['cells'][c]['tags'] for c in spec['children'] if c != spec['target']}
+        V.check('no_other_node_changes', all(v == {'t': 0} for v in others.values()) and right['labels'] == {'k': 0},
+                lambda: ('an update naming child %s and port left changed other nodes that held the same default object (updater %s)' % (
+                    spec['target'], upd), others, right))
+        V.check('write_lands_on_node', box['cells'][spec['target']]['tags'] == {'t': 0, 'seen': 1} and
+                box['left']['labels'] == {'k': 0, 'x': 1},
+                lambda: ('the named nodes do not hold the merged value', box['cells'][spec['target']], box['left']))
+    except Exception as ex:
+        V.check('write_lands_on_node', False, ('neighbours case raised', type(ex).__name__, str(ex)[:200]))
+    return {'viol': list(V), 'evals': V.evals, 'nontrivial': len(spec['children']) >= 2, 'classes': ['merge_neighbours'],
+            'summary': {'children': len(spec['children'])}}
+
+
 def gen(r, tier, i):
     k = r.random()
+    if i % 200 == 13:
+        ch = ['c%d' % j for j in range(r.randint(2, 4))]
+        return {'family': 'merge_neighbours', 'updater': 'merge', 'children': ch, 'target': r.choice(ch), 'dotdot': r.random() < 0.5,
+                'ticks': r.randint(1, 3)}
     if k < 0.04:
         return gen_watchers(r)
     if k < 0.12:
@@ -230,6 +279,8 @@ def run(spec):
         return run_shared(spec)
     if spec.get('family') == 'glob_subtopology':
         return run_watchers(spec)
+    if spec.get('family') == 'merge_neighbours':
+        return run_neighbours(spec)
     from vivarium.core.engine import Engine
     from vmon.sensors import plain_values
     V = Viol()
